@@ -13,7 +13,9 @@ the minimum of the squared distance |A + s·u − C − t·v|² over the unit sq
     parameters are in [0,1], otherwise the least of the four end-point-to-segment distances — is the
     minimum; `gq_border`: the border values are exactly the point-to-segment functions of
     `C15_point_segment_3d`, which proves each of those four minimal on its side.
-Left to the oracle: 2-D parallel segments (the optimum is a whole line of parameters), rounding.
+  * `C15_parallel_on_border`: for parallel segments (2-D and 3-D; the optimum of the carrier lines is
+    a whole line of parameters) every point of the square is matched or beaten by a border point.
+Left to the oracle: rounding.
 -/
 import Mathlib.Tactic.Ring
 import Mathlib.Tactic.Linarith
@@ -290,6 +292,40 @@ theorem gq_border (ax ay az bx by_ bz cx cy cz dx dy dz t : K) :
       = f3 ax ay az bx by_ bz dx dy dz t := by
   unfold gq f3
   refine ⟨by ring, by ring, by ring, by ring⟩
+
+/-- Moving both parameters along the common direction of two parallel lines (s by λ, t by κ·λ when
+u = κ·v) does not change the distance. -/
+theorem gq_parallel_shift (vx vy vz wx wy wz k s t l : K) :
+    gq (k * vx) (k * vy) (k * vz) vx vy vz wx wy wz (s + l) (t + k * l)
+      = gq (k * vx) (k * vy) (k * vz) vx vy vz wx wy wz s t := by
+  unfold gq; ring
+
+/-- **C15 — parallel segments (2-D with the third ordinates zero, and 3-D)**: with u = κ·v, v ≠ 0
+(the optimum of the carrier lines is a whole line of parameters), every point of the unit square is
+matched or beaten by a point of its border — so the least of the four end-point-to-segment
+distances, which is what both `xy.DistanceFromLineToLine` (denominator zero) and the parallel
+branch of `xyz.DistanceLineToLine` fall back to, is the minimum distance of the two segments. -/
+theorem C15_parallel_on_border (vx vy vz wx wy wz k : K)
+    (hc : vx * vx + vy * vy + vz * vz ≠ 0)
+    (s t : K) (hs0 : 0 ≤ s) (hs1 : s ≤ 1) (ht0 : 0 ≤ t) (ht1 : t ≤ 1) :
+    ∃ s' t', 0 ≤ s' ∧ s' ≤ 1 ∧ 0 ≤ t' ∧ t' ≤ 1 ∧ (s' = 0 ∨ s' = 1 ∨ t' = 0 ∨ t' = 1) ∧
+      gq (k * vx) (k * vy) (k * vz) vx vy vz wx wy wz s' t'
+        ≤ gq (k * vx) (k * vy) (k * vz) vx vy vz wx wy wz s t := by
+  obtain ⟨t0, hu, hv⟩ : ∃ t0, gradU (k * vx) (k * vy) (k * vz) vx vy vz wx wy wz 0 t0 = 0 ∧
+      gradV (k * vx) (k * vy) (k * vz) vx vy vz wx wy wz 0 t0 = 0 :=
+    ⟨_, C15_parallel_params_critical vx vy vz wx wy wz k hc⟩
+  -- a critical point outside the square: the same line of optima, two units further along
+  have hmin : ∀ s t, gq (k * vx) (k * vy) (k * vz) vx vy vz wx wy wz (0 + 2) (t0 + k * 2)
+      ≤ gq (k * vx) (k * vy) (k * vz) vx vy vz wx wy wz s t := by
+    intro s t
+    rw [gq_parallel_shift]
+    exact C15_critical_is_min _ _ _ _ _ _ _ _ _ 0 t0 s t hu hv
+  exact C15_optimum_on_border _ _ _ _ _ _ _ _ _ (0 + 2) (t0 + k * 2) hmin
+    (Or.inr (Or.inl (by norm_num))) s t hs0 hs1 ht0 ht1
+
+/-- Non-vacuity: two parallel unit segments one unit apart, offset by three along their direction:
+the border point (s, t) = (1, 0) — end of the first against start of the second — has distance² 5. -/
+example : gq (1 * (1 : ℚ)) (1 * 0) (1 * 0) 1 0 0 (-3) 1 0 1 0 = 5 := by unfold gq; norm_num
 
 /-- Non-vacuity: two skew segments whose closest approach is interior (s = t = 1/2, distance² 1),
 and the cross-product parameters for them. -/
